@@ -132,6 +132,41 @@ Proof.
     rewrite <- tshape_length, Es. exact Hs.
 Qed.
 
+(* sumtensor.innerprod(K), K Kruskal *)
+Theorem impl_innerprod_sum_k_correct (parts : list part) (K : ktensor V) s :
+  Forall (wf_part isz s) parts -> kshape K = s ->
+  impl_innerprod_sum_k v0 v1 vadd vmul parts K =
+  sip (den_parts v0 vadd (map (den_part v0 v1 vadd vmul) parts)) (den_k v0 v1 vadd vmul K) s.
+Proof.
+  intros HW EK. rewrite (spec_innerprod_sum V v0 v1 vadd vmul vsub vopp Vring).
+  unfold impl_innerprod_sum_k. apply sum_parts. intros p Hp.
+  rewrite Forall_forall in HW. destruct (HW p Hp) as (Es & Wp).
+  destruct p as [X|A|L|T]; cbn [part_shape den_part impl_innerprod_part_k] in *.
+  - rewrite ipcomm, <- EK. apply impl_innerprod_k_dense_correct; auto. congruence.
+  - rewrite ipcomm, <- EK. apply impl_innerprod_k_sp_correct; auto. congruence.
+  - rewrite <- Es. apply (impl_innerprod_kk_correct V v0 v1 vadd vmul vsub vopp Vring). congruence.
+  - rewrite ipcomm, <- EK. destruct Wp as (Wc & Lc). apply impl_innerprod_k_t_correct; auto. congruence.
+Qed.
+
+(* sumtensor.innerprod(T'), T' Tucker *)
+Theorem impl_innerprod_sum_t_correct (parts : list part) (T' : ttensor V) s :
+  Forall (wf_part isz s) parts -> 1 <= length s ->
+  wf_dense (tcore T') -> length (dshape (tcore T')) = length (tfactors T') -> tshape T' = s ->
+  impl_innerprod_sum_t v0 v1 vadd vmul (impl_innerprod_t_sp V v0 vadd vmul) parts T' =
+  sip (den_parts v0 vadd (map (den_part v0 v1 vadd vmul) parts)) (den_t v0 v1 vadd vmul T') s.
+Proof.
+  intros HW Hs WT LT ET. rewrite (spec_innerprod_sum V v0 v1 vadd vmul vsub vopp Vring).
+  unfold impl_innerprod_sum_t. apply sum_parts. intros p Hp.
+  rewrite Forall_forall in HW. destruct (HW p Hp) as (Es & Wp).
+  destruct p as [X|A|K|T]; cbn [part_shape den_part impl_innerprod_part_t] in *.
+  - rewrite ipcomm, <- ET. apply (impl_innerprod_t_dense_correct V v0 v1 vadd vmul vsub vopp Vring); auto. congruence.
+  - rewrite ipcomm, <- ET. apply (impl_innerprod_t_sp_correct V v0 v1 vadd vmul vsub vopp Vring isz); auto; try congruence.
+    rewrite <- tshape_length, ET. exact Hs.
+  - rewrite <- Es. apply impl_innerprod_k_t_correct; auto. congruence.
+  - rewrite <- Es. destruct Wp as (Wc & Lc).
+    apply (impl_innerprod_tt_correct V v0 v1 vadd vmul vsub vopp Vring); auto. congruence.
+Qed.
+
 (* sumtensor.mttkrp(Us, n), entry (x, r) *)
 Theorem impl_mttkrp_sum_correct (parts : list part) (Us : list (@matrix V)) s n R x r :
   Forall (wf_part isz s) parts -> 2 <= length s -> n < length s -> length Us = length s ->
